@@ -803,7 +803,11 @@ MHD_str_has_token_caseless_ (const char *str,
       if (0 == sc)
         return false;
       if (! charsequalcaseless (sc, tc))
+      {
+        if (',' == sc)
+          str--; /* The comma is the end of the current substring */
         break;
+      }
       if (i >= token_len)
       {
         /* Check whether substring match token fully or
